@@ -21,7 +21,7 @@
 From Coq Require Import List ZArith NArith Permutation.
 From Astisub Require Import Kit.Base Kit.Str Kit.Scan Model.Dur Model.Vtt Proofs.VttIOProofs Proofs.VttBase Proofs.VttLine Proofs.VttSimple Proofs.VttDoc Proofs.EolProofs.
 From Astisub Require Import Proofs.VttReadTime Proofs.VttReadLine Proofs.VttReadDoc Proofs.VttReadDec Proofs.VttNeeds Proofs.VttDomain Proofs.VttWriteRender.
-From Astisub Require Import Kit.Chk Model.VttC Proofs.VttChk.
+From Astisub Require Import Kit.Chk Model.VttC Proofs.VttChk Proofs.VttKeyed.
 From Coq Require Strings.String.
 Import Strings.String.StringSyntax.
 Delimit Scope string_scope with string.
@@ -336,6 +336,168 @@ Theorem C02_checked_writer_total : forall d so ro p, write_vtt_c d so ro <> Pani
 Proof. exact write_vtt_c_no_panic. Qed.
 Print Assumptions C02_checked_writer_total.
 
+(* ---- the writer over keyed maps (second audit, N5; webvtt.go:491-565 after the library fix a3e0487) ----
+   Subtitles.Styles and Subtitles.Regions are Go maps: a key need not be the ID field of the value under it and a value
+   may be nil.  [so] and [ro] are ALL the keys of the two maps (in the order the runtime ranges over them: irrelevant by
+   C02_writer_order_independent); the value under a key is its look-up in vd_styles / vd_regions, None standing for a nil
+   pointer (for a style, Some None is a Style whose InlineStyle is nil).  For EVERY document with a cue and all key lists
+   -- no key = id hypothesis, no distinctness hypothesis -- the bytes are the lines of keyed_hdr_lines followed by the cue
+   lines: header, timestamp map, the STYLE block made of the WebVTTStyles found under the sorted style keys, one Region
+   line per non-nil value in the order of the sorted KEYS (keyed_regions) showing the value's own ID, and one empty line
+   when the regions map has a key at all, nil values included (match ro with nil => no line).  When every listed key
+   carries a value whose ID is the key (regions_keyed, which repr_vdoc implies) this is the reading by identifier of
+   C02_write_read (hdr_lines).  The Examples are the inputs run on the library (notes/C02.md, section N5): the audit's
+   witness Regions{b:{ID:x}, a:{ID:y}} writes the line of y before the line of x, whatever the iteration order; a map
+   with only nil values writes the empty line alone; two keys with one ID write two lines. *)
+Theorem C02_writer_keyed_maps : forall d so ro, vd_items d <> [] ->
+  write_vtt d so ro = Ok (removelast (unlines (keyed_hdr_lines d so ro ++ items_lines 0 (vd_items d)))).
+Proof. exact write_vtt_keyed. Qed.
+Print Assumptions C02_writer_keyed_maps.
+Theorem C02_writer_keyed_maps_by_id : forall d so ro, regions_keyed d ro -> keyed_hdr_lines d so ro = hdr_lines d so ro.
+Proof. exact keyed_hdr_lines_keyed. Qed.
+Print Assumptions C02_writer_keyed_maps_by_id.
+Example C02_writer_keyed_maps_witness : forall ro, In ro [[b "b"; b "a"]; [b "a"; b "b"]] ->
+  write_vtt (mkVdoc [kx_item] [(b "b", mkVregion (b "x") None None); (b "a", mkVregion (b "y") None None)] [] None) [] ro =
+  Ok (b "WEBVTT" ++ [10; 10]%N ++ b "Region: id=y" ++ [10%N] ++ b "Region: id=x" ++ [10; 10]%N ++
+      b "1" ++ [10%N] ++ b "00:00:01.000 --> 00:00:02.000" ++ [10%N] ++ b "a" ++ [10%N]).
+Proof. exact keyed_witness. Qed.
+Example C02_writer_keyed_maps_only_nil :
+  write_vtt (mkVdoc [kx_item] [] [] None) [] [b "b"; b "a"] =
+  Ok (b "WEBVTT" ++ [10; 10; 10]%N ++ b "1" ++ [10%N] ++ b "00:00:01.000 --> 00:00:02.000" ++ [10%N] ++ b "a" ++ [10%N]) /\
+  write_vtt (mkVdoc [kx_item] [] [] None) [] [] =
+  Ok (b "WEBVTT" ++ [10; 10]%N ++ b "1" ++ [10%N] ++ b "00:00:01.000 --> 00:00:02.000" ++ [10%N] ++ b "a" ++ [10%N]).
+Proof. exact keyed_only_nil. Qed.
+Example C02_writer_keyed_maps_duplicate_id :
+  write_vtt (kx_doc [(b "b", kx_rg "x" "10%"); (b "a", kx_rg "x" "20%")] []) [] [b "b"; b "a"] =
+  Ok (b "WEBVTT" ++ [10; 10]%N ++ b "Region: id=x width=20%" ++ [10%N] ++ b "Region: id=x width=10%" ++ [10; 10]%N ++
+      b "1" ++ [10%N] ++ b "00:00:01.000 --> 00:00:02.000" ++ [10%N] ++ b "a" ++ [10%N]).
+Proof. exact keyed_duplicate_id. Qed.
+Example C02_writer_keyed_maps_styles :
+  write_vtt (kx_doc [] [(b "b", Some [b "sb1"; b "sb2"]); (b "a", Some [b "sa"])]) [b "b"; b "a"] [] =
+  Ok (b "WEBVTT" ++ [10; 10]%N ++ b "STYLE" ++ [10%N] ++ b "sa" ++ [10%N] ++ b "sb1" ++ [10%N] ++ b "sb2" ++ [10; 10]%N ++
+      b "1" ++ [10%N] ++ b "00:00:01.000 --> 00:00:02.000" ++ [10%N] ++ b "a" ++ [10%N]).
+Proof. exact (proj1 keyed_styles). Qed.
+(* ---- the scanner's line limit (second audit, item N3; Proofs/LineBound.v, Proofs/LineBoundVtt.v) ----
+   The theorems above are stated on the unbounded line splitter (read_vtt data = read_vtt_lines (lines data) false).  The real
+   reader takes its lines from a bufio.Scanner with the default buffer: a line of 65536 bytes or more makes ReadFromWebVTT
+   fail with bufio.ErrTooLong.  A document whose one cue has a text line of 65536 letters satisfies repr_vdoc; the library
+   writes it and cannot read it back, so C02_write_read, C02_read_rendered (_lines on lines is not affected),
+   C02_write_read_via_rendering, C02_read_rendered_bytes_gen and C02_eol are true of the library only below that size.  The
+   statements that are true of the library carry the line bound; they are about read_vtt_lim max data counts = the reader over
+   the limit-aware scanner of C17 (buffer of max bytes -- the real value is max_scan_token = 65536 --, delivery schedule
+   counts), for EVERY max and EVERY schedule (lines_within: every line two bytes shorter than the buffer, the bound of
+   C17_readers_within_limit, enough for all three line ends; lines_within_lf: one byte shorter, exact for the LF-terminated
+   bytes of the writer; line_beyond_lf: some line of max bytes or more):
+   C02_write_read_within_limit       the round trip, bound on the written bytes;
+   C02_write_read_exact_limit        the writer's bytes are read back when no written line has max bytes or more, and
+                                     REFUSED (an error, never a shorter document) when one has;
+   C02_written_lines_within_limit, C02_write_read_doc_within_limit   the bound stated on the document: the header lines
+                                     (timestamp map, STYLE block, region definitions), per cue the NOTE lines, the timing line
+                                     (times and settings) and the text lines; the identifier line has at most 19 bytes;
+   C02_read_rendered_within_limit, C02_read_rendered_gen_within_limit, C02_eol_within_limit   every rendering, every line end;
+   C02_refused_beyond_limit          the refusal under the structural conditions of C02_write_is_rendering alone;
+   C02_line_bound_sharp              one cue with a text line of n letters (representable for every n > 0): read back iff
+                                     n + 1 <= max, for every max >= 30 and every schedule;
+   C02_needs_line_bound              the same by computation on a buffer of 48 bytes, with the error returned (EIO: the
+                                     scanner's error); 47 letters pass with LF and fail once the lines end in CR LF;
+   C02_real_line_bound               the real constant: 65535 letters are read back, 65536 refused, under every schedule,
+                                     while the document with 65536 letters satisfies repr_vdoc.
+   Replayed on the library by the harness suite vtt.linebound (lines of 65533 .. 65537 bytes). *)
+From Coq Require Import Arith.
+From Astisub Require Import Kit.ScanLim Proofs.ScanLimProofs Proofs.LineBound Proofs.LineBoundVtt.
+
+Theorem C02_write_read_within_limit : forall (max : nat) d so ro, (0 < max)%nat -> repr_vdoc d so ro ->
+  forall data, write_vtt d so ro = Ok data -> lines_within max (lines data) ->
+  forall counts, read_vtt_lim max data counts = Ok (ndoc d so ro).
+Proof. exact write_read_vtt_within. Qed.
+Print Assumptions C02_write_read_within_limit.
+
+Theorem C02_write_read_exact_limit : forall (max : nat) d so ro, (0 < max)%nat -> repr_vdoc d so ro ->
+  exists data, write_vtt d so ro = Ok data /\
+    (lines_within_lf max (render_vtt (w_hrend d so ro) (w_gdoc d so ro) (w_cues d) []) ->
+       forall counts, read_vtt_lim max data counts = Ok (ndoc d so ro)) /\
+    (line_beyond_lf max (render_vtt (w_hrend d so ro) (w_gdoc d so ro) (w_cues d) []) ->
+       forall counts, exists k, read_vtt_lim max data counts = Err k).
+Proof. exact write_read_vtt_exact. Qed.
+Print Assumptions C02_write_read_exact_limit.
+
+Theorem C02_written_lines_within_limit : forall (max : nat) d so ro, (21 <= max)%nat -> repr_vdoc d so ro ->
+  lines_within max (hdr_lines d so ro) /\
+  Forall (fun it => lines_within max (note_lines (vi_comments it)) /\ (length (timing_line it) + 2 <= max)%nat /\
+                    lines_within max (text_lines (vi_lines it))) (vd_items d) ->
+  lines_within max (render_vtt (w_hrend d so ro) (w_gdoc d so ro) (w_cues d) []).
+Proof. exact vtt_lines_within. Qed.
+Print Assumptions C02_written_lines_within_limit.
+
+Theorem C02_write_read_doc_within_limit : forall (max : nat) d so ro, (21 <= max)%nat -> repr_vdoc d so ro ->
+  lines_within max (hdr_lines d so ro) /\
+  Forall (fun it => lines_within max (note_lines (vi_comments it)) /\ (length (timing_line it) + 2 <= max)%nat /\
+                    lines_within max (text_lines (vi_lines it))) (vd_items d) ->
+  exists data, write_vtt d so ro = Ok data /\ forall counts, read_vtt_lim max data counts = Ok (ndoc d so ro).
+Proof. exact write_read_vtt_doc_within. Qed.
+Print Assumptions C02_write_read_doc_within_limit.
+
+Theorem C02_read_rendered_within_limit : forall (max : nat) e h g cues eof, (0 < max)%nat -> eol_ok e ->
+  rendering_okb h g cues eof = true -> lines_withinb max (render_vtt h g cues eof) = true ->
+  forall counts, read_vtt_lim max (render_eol e (render_vtt h g cues eof)) counts = Ok (denote_vtt g cues).
+Proof. exact read_rendered_vtt_okb_within. Qed.
+Print Assumptions C02_read_rendered_within_limit.
+
+Theorem C02_read_rendered_gen_within_limit : forall (max : nat) e h g cues eof, (0 < max)%nat -> eol_ok e ->
+  hrend_ok h g -> gdoc_ok g ->
+  Forall (fun p => gcue_ok (denote_regions g) (snd p) /\ crend_ok (fst p) (snd p)) cues ->
+  Forall (fun p => cr_before (fst p) <> []) (tl cues) -> Forall blank eof ->
+  lines_within max (render_vtt h g cues eof) ->
+  forall counts, read_vtt_lim max (render_eol e (render_vtt h g cues eof)) counts = Ok (denote_vtt g cues).
+Proof. exact read_rendered_vtt_within. Qed.
+Print Assumptions C02_read_rendered_gen_within_limit.
+
+Theorem C02_eol_within_limit : forall (max : nat) e (ls : list str) counts, (0 < max)%nat -> eol_ok e ->
+  Forall brkfree ls -> lines_within max ls -> read_vtt_lim max (render_eol e ls) counts = read_vtt_lines ls false.
+Proof. exact read_vtt_lim_eol. Qed.
+Print Assumptions C02_eol_within_limit.
+
+Theorem C02_refused_beyond_limit : forall (max : nat) d so ro, vd_items d <> [] -> regions_keyed d ro -> times_nonneg d ->
+  Forall brkfree (render_vtt (w_hrend d so ro) (w_gdoc d so ro) (w_cues d) []) ->
+  line_beyond_lf max (render_vtt (w_hrend d so ro) (w_gdoc d so ro) (w_cues d) []) ->
+  exists data, write_vtt d so ro = Ok data /\ forall counts, exists k, read_vtt_lim max data counts = Err k.
+Proof. exact write_vtt_beyond. Qed.
+Print Assumptions C02_refused_beyond_limit.
+
+(* the bound is needed and sharp: a_vdoc n = one cue, one text line of n letters a (timing line: 29 bytes); representable
+   for every n > 0, read back iff n + 1 <= max, for every buffer size above the timing line and every schedule *)
+Theorem C02_line_bound_sharp : forall (max : nat) (n : N), (30 <= max)%nat -> (0 < n)%N ->
+  repr_vdoc (a_vdoc n) [] [] /\
+  exists data, write_vtt (a_vdoc n) [] [] = Ok data /\ read_vtt data = Ok (ndoc (a_vdoc n) [] []) /\
+    ((N.to_nat n + 1 <= max)%nat -> forall counts, read_vtt_lim max data counts = Ok (ndoc (a_vdoc n) [] [])) /\
+    ((max < N.to_nat n + 1)%nat -> forall counts, exists k, read_vtt_lim max data counts = Err k).
+Proof. exact vtt_line_bound_sharp. Qed.
+Print Assumptions C02_line_bound_sharp.
+
+Theorem C02_real_line_bound :
+  repr_vdoc (a_vdoc 65536) [] [] /\
+  (exists data, write_vtt (a_vdoc 65535) [] [] = Ok data /\
+     forall counts, read_vtt_lim max_scan_token data counts = Ok (ndoc (a_vdoc 65535) [] [])) /\
+  (exists data, write_vtt (a_vdoc 65536) [] [] = Ok data /\ read_vtt data = Ok (ndoc (a_vdoc 65536) [] []) /\
+     forall counts, exists k, read_vtt_lim max_scan_token data counts = Err k).
+Proof. exact vtt_real_line_bound_full. Qed.
+Print Assumptions C02_real_line_bound.
+
+Example C02_needs_line_bound :
+  read_vtt (vtt_bytes (a_vdoc 48)) = Ok (ndoc (a_vdoc 48) [] []) /\
+  read_vtt_lim 48 (vtt_bytes (a_vdoc 48)) [] = Err EIO /\
+  read_vtt_lim 48 (vtt_bytes (a_vdoc 48)) [7%nat; 0%nat; 100%nat] = Err EIO /\
+  lines_withinb 48 (lines (vtt_bytes (a_vdoc 46))) = true /\
+  read_vtt_lim 48 (vtt_bytes (a_vdoc 46)) [7%nat; 0%nat; 100%nat] = Ok (ndoc (a_vdoc 46) [] []) /\
+  lines_withinb 48 (lines (vtt_bytes (a_vdoc 47))) = false /\
+  read_vtt_lim 48 (vtt_bytes (a_vdoc 47)) [7%nat; 0%nat; 100%nat] = Ok (ndoc (a_vdoc 47) [] []) /\
+  read_vtt_lim 48 (render_eol [CR; LF] (lines (vtt_bytes (a_vdoc 47)))) [7%nat; 0%nat; 100%nat] = Err EIO /\
+  read_vtt (render_eol [CR; LF] (lines (vtt_bytes (a_vdoc 47)))) = Ok (ndoc (a_vdoc 47) [] []).
+Proof. exact vtt_needs_line_bound. Qed.
+Example C02_real_line_bound_computed :
+  read_vtt_lim max_scan_token (vtt_bytes (a_vdoc 65536)) [] = Err EIO /\
+  read_vtt_lim max_scan_token (vtt_bytes (a_vdoc 65536)) [max_scan_token; 0%nat] = Err EIO.
+Proof. exact vtt_real_line_bound_computed. Qed.
 (* ---- the model's literals are the constants of the Go source (Proofs/ConstTie.v, Gen/Consts.v regenerated from the
    repository on every run by tools/genconsts): the WebVTT separators, keywords and names the model spells out equal the
    NAMED package-level constants, struct tags and bidirectional-map entries of the source (literals inside function bodies and
